@@ -8,8 +8,8 @@ Arguments FNum {D}. Arguments FVar {D}.
 Record fnode (D : Type) := { nkind : fkind D; nun : list nat }.          (* FlatNode: kind + unary_op *)
 Arguments nkind {D}. Arguments nun {D}. Arguments Build_fnode {D}.
 Record fop := { fprio : Z; fidx : nat; fcomm : bool; fun_ : list nat }.  (* FlatOp: bin_op (prio, idx, is_commutative) + unary_op *)
-Record flatex (D : Type) := { fnodes : list (fnode D); fops : list fop; fprios : list nat; fvars : list str }.
-Arguments fnodes {D}. Arguments fops {D}. Arguments fprios {D}. Arguments fvars {D}. Arguments Build_flatex {D}.
+Record flatex (D : Type) := { fnodes : list (fnode D); fops : list fop; fprios : list nat; fvars : list str; ftext : str }.
+Arguments fnodes {D}. Arguments fops {D}. Arguments fprios {D}. Arguments fvars {D}. Arguments ftext {D}. Arguments Build_flatex {D}.
 
 Definition DEPTH_PRIO_STEP : Z := 1000.
 
@@ -159,11 +159,11 @@ Definition prioritized_indices_flat (ops : list fop) (nodes : list (fnode D)) : 
   sort_desc (key nodes ops) (seq 0 (length ops)).
 
 (* flat.rs:454 make_expression *)
-Definition make_expression (ts : list (token D)) (vars : list str) : res (flatex D) :=
+Definition make_expression (text : str) (ts : list (token D)) (vars : list str) : res (flatex D) :=
   do r <- walk (S (length ts)) [] ts vars [] [] 0 [];
   let '(nodes, ops) := r in
   if Nat.eqb (S (length ops)) (length nodes)
-  then Ok {| fnodes := nodes; fops := ops; fprios := prioritized_indices_flat ops nodes; fvars := vars |}
+  then Ok {| fnodes := nodes; fops := ops; fprios := prioritized_indices_flat ops nodes; fvars := vars; ftext := text |}
   else Err E_COUNT.
 
 (* evaluation *)
@@ -259,16 +259,16 @@ Definition compile (fx : flatex D) : res (flatex D) :=
                               | FVar _ => n end) (fnodes fx) in
   do ' (nodes, used) <- compile_loop (fprios fx) 0 (fprios fx) nodes0 (fops fx) (repeat false (length nodes0)) [];
   let ops := map snd (filter (fun p => negb (existsb (Nat.eqb (fst p)) used)) (combine (seq 0 (length (fops fx))) (fops fx))) in
-  Ok {| fnodes := nodes; fops := ops; fprios := prioritized_indices_flat ops nodes; fvars := fvars fx |}.
+  Ok {| fnodes := nodes; fops := ops; fprios := prioritized_indices_flat ops nodes; fvars := fvars fx; ftext := ftext fx |}.
 
 (* flat.rs:608-634 parse / parse_wo_compile *)
 Variable is_literal : str -> option nat.
-Definition parse_tokens_wo (ts : list (token D)) : res (flatex D) :=
+Definition parse_tokens_wo (text : str) (ts : list (token D)) : res (flatex D) :=
   do _ <- check_preconditions tb ts;
-  make_expression ts (find_parsed_vars ts).
+  make_expression text ts (find_parsed_vars ts).
 Definition parse_wo_compile (text : str) : res (flatex D) :=
   do ts <- tokenize C tb is_literal text;
-  parse_tokens_wo ts.
+  parse_tokens_wo text ts.
 Definition parse (text : str) : res (flatex D) :=
   do fx <- parse_wo_compile text; compile fx.
 End Flat.
